@@ -117,6 +117,16 @@ func vContent(r *rand.Rand, l int, buf []byte) []byte {
 
 var vSuffix = []byte{0xde, 0xad, 0xbe, 0xef, 0x01}
 
+// vDirty is a copy of prefix with spare capacity that holds non-zero bytes (a reused or pooled buffer)
+func vDirty(prefix []byte, spare int, fill byte) []byte {
+	b := make([]byte, len(prefix)+spare)
+	for i := range b {
+		b[i] = fill
+	}
+	copy(b, prefix)
+	return b[:len(prefix)]
+}
+
 func vCheckTL1String(st *vStats, r *rand.Rand, l int, content []byte, full bool) {
 	want := mTL1String(content)
 	prefix := []byte{0x11, 0x22}
@@ -125,6 +135,14 @@ func vCheckTL1String(st *vStats, r *rand.Rand, l int, content []byte, full bool)
 	if !bytes.Equal(got[2:], want) || !bytes.Equal(got[:2], prefix) {
 		st.violation("tl1-string-write", "layout", fmt.Sprintf("StringWriteBytes(len %d): head % x, model % x", l, got[2:min(len(got), 12)], want[:min(len(want), 10)]))
 		return
+	}
+	for _, fill := range []byte{0xff, 0xa5} {
+		d1 := StringWriteBytes(vDirty(prefix, len(want)+9, fill), content)
+		d2 := StringWrite(vDirty(prefix, len(want)+9, fill), string(content))
+		if !bytes.Equal(d1, got) || !bytes.Equal(d2, got) {
+			st.violation("tl1-string-write", "dirty-buffer", fmt.Sprintf("StringWrite[Bytes](len %d) into a buffer whose spare capacity holds %#x bytes differs from the write into a fresh buffer", l, fill))
+			return
+		}
 	}
 	gots := StringWrite(append([]byte{}, prefix...), string(content))
 	if !bytes.Equal(gots, got) {
@@ -238,6 +256,10 @@ func vCheckTL2Size(st *vStats, l int) {
 		st.violation("tl2-size", "write", fmt.Sprintf("TL2WriteSize(%d) = % x, model % x", l, got[1:], want))
 		return
 	}
+	if d := TL2WriteSize(vDirty([]byte{0x77}, 12, 0xff), l); !bytes.Equal(d, got) {
+		st.violation("tl2-size", "dirty-buffer", fmt.Sprintf("TL2WriteSize(%d) into a buffer with dirty spare capacity = % x, fresh % x", l, d, got))
+		return
+	}
 	buf := make([]byte, 16)
 	n := TL2PutSize(buf, l)
 	if n != len(want) || !bytes.Equal(buf[:n], want) {
@@ -294,6 +316,14 @@ func vCheckTL2String(st *vStats, r *rand.Rand, l int, content []byte) {
 	if !bytes.Equal(got[1:], want) || !bytes.Equal(got, got2) {
 		st.violation("tl2-string", "write", fmt.Sprintf("StringWriteTL2[Bytes](len %d) differs from model (equal to each other: %v)", l, bytes.Equal(got, got2)))
 		return
+	}
+	for _, fill := range []byte{0xff, 0xa5} {
+		d1 := StringWriteTL2Bytes(vDirty([]byte{1}, len(want)+9, fill), content)
+		d2 := StringWriteTL2(vDirty([]byte{1}, len(want)+9, fill), string(content))
+		if !bytes.Equal(d1, got) || !bytes.Equal(d2, got) {
+			st.violation("tl2-string", "dirty-buffer", fmt.Sprintf("StringWriteTL2[Bytes](len %d) into a buffer whose spare capacity holds %#x bytes differs from the write into a fresh buffer", l, fill))
+			return
+		}
 	}
 	in := append(append([]byte{}, want...), vSuffix...)
 	var s string
@@ -353,6 +383,12 @@ func vCheckBits(st *vStats, r *rand.Rand, n int, pattern int) {
 	if !bytes.Equal(got[1:], want) {
 		st.violation("bits", "write", fmt.Sprintf("VectorBitContentWriteTL2(%d bits, pattern %d) = % x, model % x", n, pattern, got[1:], want))
 		return
+	}
+	for _, fill := range []byte{0xff, 0xa5, 0x5a} {
+		if d := VectorBitContentWriteTL2(vDirty([]byte{9}, len(want)+3, fill), v); !bytes.Equal(d, got) {
+			st.violation("bits", "dirty-buffer", fmt.Sprintf("VectorBitContentWriteTL2(%d bits, pattern %d) into a buffer whose spare capacity holds %#x bytes = % x, fresh buffer % x", n, pattern, fill, d[1:], got[1:]))
+			return
+		}
 	}
 	out := make([]bool, n)
 	for i := range out {
